@@ -90,8 +90,8 @@ class MatcherNF:
                 raise AnalysisError(f"anchor vanished: {cls_q}.match_{k}")
             I = new_interp()
             I.intrinsics[self.sink_q] = _sink_intrinsic
-            for prop in ("table_cells", "tags"):
-                pq = f"gherkin.gherkin_line.GherkinLine.{prop}"
+            for prop, member in (("table_cells", N.TABLE_CELLS), ("tags", N.TAGS)):
+                pq = f"gherkin.gherkin_line.GherkinLine.{member}"
                 if I.facts.has_func(pq):
                     I.intrinsics[pq] = (lambda I_, st_, fi_, args, kwargs, n, tree_, prop=prop: ("prop", prop, args[0]))
             # analyse with self typed as the class under analysis (virtual dispatch resolves to it)
@@ -143,7 +143,7 @@ def rule_sink(rep: Report, rid_col="C04.col", rid_crlf="C16.crlf", want=("col", 
     if any(x not in p for x in ("token", "matched_type", "text", "keyword", "keyword_type", "indent", "items")):
         raise AnalysisError(f"sink signature changed: {p}")
     ext = st.ext if st else {}
-    line_indent = ("attr", ("attr", tok, "line"), "indent")
+    line_indent = ("attr", ("attr", tok, "line"), N.INDENT)
     mi = ext.get((tok, "matched_indent"))
     want_mi_forms = [
         ("cond", ("cmp", "Is", par("indent"), NONE), ("cond", ("attr", tok, "line"), line_indent, const(0)), par("indent")),
@@ -734,7 +734,7 @@ def rule_docstring_fsm(rep: Report, rid="C13.fsm", cls_q=MQ, openers=('"""', "``
                 rep.ob(rid, f"opening delimiter {fmt(sep, I) if sep else '?'}: media type = rest of the trimmed line after the delimiter, stripped", ok, **kw,
                        expected=".strip(trimmed[len(delimiter):])", found=fmt(t, I) if t else None)
                 continue
-            ok = sep is not None and is_const(sep) and w.get(N.DS_ACTIVE) == sep and w.get(N.DS_INDENT) == ("attr", line, "indent")
+            ok = sep is not None and is_const(sep) and w.get(N.DS_ACTIVE) == sep and w.get(N.DS_INDENT) == ("attr", line, N.INDENT)
             rep.ob(rid, f"closed state: a line starting with {fmt(sep, I) if sep else '?'} opens a doc string: that delimiter becomes active with the line's indent", ok, **kw,
                    expected=f"{N.DS_ACTIVE} := delimiter, {N.DS_INDENT} := line.indent", found={k: fmt(v, I) for k, v in w.items()})
             rep.ob(rid, "opening: token kind DocStringSeparator, keyword = the delimiter", a.get("matched_type") == const("DocStringSeparator") and a.get("keyword") == sep, **kw,
@@ -776,6 +776,18 @@ def rule_docstring_own(rep: Report, rid="C13.own") -> None:
             allowed |= {callee.rsplit(".", 1)[1] for caller, callee, line in mm.I.call_log}
         except (AnalysisError, KeyError):
             pass
+    # ... and the helpers reset() / __init__ / the delimiter matcher call on self, transitively (a state-clearing helper)
+    work = list(allowed)
+    while work:
+        nm = work.pop()
+        for cq in (MQ, "gherkin.token_matcher_markdown.GherkinInMarkdownTokenMatcher"):
+            fi0 = f.cls(cq).find_method(nm) if f.has_class(cq) else None
+            for node in ast.walk(fi0.node) if fi0 is not None else []:
+                if isinstance(node, ast.Call) and isinstance(node.func, ast.Attribute) and isinstance(node.func.value, ast.Name) \
+                        and fi0.params() and node.func.value.id == fi0.params()[0] and node.func.attr not in allowed \
+                        and not node.func.attr.startswith("match_") and f.cls(cq).find_method(node.func.attr) is not None:
+                    allowed.add(node.func.attr)
+                    work.append(node.func.attr)
     allowed -= {N.SINK, N.CHANGE_DIALECT}
     n = 0
     for m in f.modules.values():
@@ -786,7 +798,7 @@ def rule_docstring_own(rep: Report, rid="C13.own") -> None:
                 for node in ast.walk(fi.node):
                     if isinstance(node, ast.Attribute) and node.attr in (N.DS_ACTIVE, N.DS_INDENT) and isinstance(node.ctx, (ast.Store, ast.Del)):
                         n += 1
-                        ok = base in c.mro() and fi.name in allowed
+                        ok = (base in c.mro() or c in base.mro()) and fi.name in allowed
                         rep.ob(rid, f"{node.attr} is written only by the delimiter matcher and reset()", ok, file=fi.file, line=node.lineno,
                                function=fi.qualname, expected=sorted(allowed), found=fi.name)
         for fi in m.functions.values():
@@ -807,31 +819,35 @@ def rule_other_text(rep: Report, rid="C13.text", cls_q=MQ, openers=('"""', "```"
     line, trimmed, raw = line_terms(m)
     ind = ("attr", m.selft, N.DS_INDENT)
     active = ("attr", m.selft, N.DS_ACTIVE)
-    C = ("bool", "or", (mk_cmp("Lt", ind, const(0)), mk_cmp("Gt", ind, ("attr", line, "indent"))))
+    C = ("bool", "or", (mk_cmp("Lt", ind, const(0)), mk_cmp("Gt", ind, ("attr", line, N.INDENT))))
     rep.eq(rid, "match_Other reports every line, unconditionally, exactly once", 1, len(m.sinks), **_kw(m))
     for sn, ctx in m.sinks:
         a = sn[1]
         kw = _kw(m, sn[2])
         rep.ob(rid, "match_Other matches unconditionally", not nf.guards_in_ctx(ctx), **kw, expected="no guard", found=[(fmt(c, I), p) for c, p in nf.guards_in_ctx(ctx)])
         t = a.get("text")
-        atoms = cond_atoms(t) if t else []
-        eq_atoms = {o: ("cmp", "Eq", active, const(o)) for o in openers}
-        lt, gt = mk_cmp("Lt", ind, const(0)), mk_cmp("Gt", ind, ("attr", line, "indent"))
-        allowed = set(eq_atoms.values()) | {lt, gt}
-        rep.ob(rid, "the text depends only on the active delimiter and on 'indent to remove' vs the line's indent", set(atoms) <= allowed and {lt, gt} <= set(atoms), **kw,
-               expected=[fmt(x, I) for x in sorted(allowed, key=str)], found=[fmt(x, I) for x in atoms])
-        if not (set(atoms) <= allowed):
+        lt, gt = mk_cmp("Lt", ind, const(0)), mk_cmp("Gt", ind, ("attr", line, N.INDENT))
+        # one case per state of the doc string: the active delimiter is None or one of the openers.  In each case the text,
+        # with that value put in place of the attribute and everything that thereby becomes constant evaluated (comparisons,
+        # table look-ups), may depend on nothing but the indentation relation
+        cases = {}
+        stray = []
+        for which in [None] + list(openers):
+            tw = nf.simplify(I, nf.subst(t, {active: const(which)})) if t else None
+            cases[which] = tw
+            for at in (cond_atoms(tw) if tw else []):
+                if at not in (lt, gt) and at not in stray:
+                    stray.append(at)
+        seen_rel = {at for tw in cases.values() if tw for at in cond_atoms(tw)}
+        rep.ob(rid, "the text depends only on the active delimiter and on 'indent to remove' vs the line's indent", t is not None and not stray and {lt, gt} <= seen_rel, **kw,
+               expected=[fmt(x, I) for x in (lt, gt)] + ["active delimiter"], found=[fmt(x, I) for x in stray] or [fmt(x, I) for x in sorted(seen_rel, key=str)])
+        if t is None or stray:
             continue
         bad = []
         for which in [None] + list(openers):
             for ltv in (True, False):
                 for gtv in (True, False):
-                    assign = {lt: ltv, gt: gtv}
-                    for o, at in eq_atoms.items():
-                        assign[at] = (o == which)
-                    got = resolve_conds(t, assign)
-                    if which is not None:
-                        got = nf.subst(got, {active: const(which)})      # in this case the active delimiter is that constant
+                    got = resolve_conds(cases[which], {lt: ltv, gt: gtv})
                     base = trimmed if (ltv or gtv) else ("slice", raw, ind, NONE, NONE)
                     want = base
                     if which is not None:
@@ -859,7 +875,7 @@ def rule_other_text(rep: Report, rid="C13.text", cls_q=MQ, openers=('"""', "```"
     rsets = [n for n, ctx in nf.iter_nodes(rtree) if n[0] == "setattr" and n[2] == N.DS_INDENT and not nf.guards_in_ctx(ctx)]
     for n in rsets:
         writes.append(("reset", n[3], None))
-    bad = [(w, fmt(v, ds.I)) for w, v, _ in writes if not (is_const(v, 0) or v == ("attr", dline, "indent"))]
+    bad = [(w, fmt(v, ds.I)) for w, v, _ in writes if not (is_const(v, 0) or v == ("attr", dline, N.INDENT))]
     rep.ob(rid, "outside a doc string no indentation is removed from free-text lines: the indent to remove is 0 after reset() and after a closing "
                 "delimiter, and an opening delimiter's own indent inside", bool(rsets) and any(is_const(v, 0) for w, v, _ in writes if w == "reset") and not bad
            and any(w != "reset" and is_const(v, 0) for w, v, _ in writes), **_kw(m),
@@ -897,7 +913,7 @@ def rule_token_table(rep: Report, rid="C16.trim", rid_col="C04.col") -> None:
             rep.eq(rid, f"match_{kind} reports kind {kind}", const(kind), a.get("matched_type"), **kw)
             exp_indent = const(0) if kind in ("Comment", "Empty") else None
             rep.ob(rid_col, f"match_{kind}: column is " + ("1 (indent 0)" if exp_indent else "the line's indent + 1 (default indent)"),
-                   a.get("indent") == exp_indent or (exp_indent is None and a.get("indent") == ("attr", line, "indent")), **kw,
+                   a.get("indent") == exp_indent or (exp_indent is None and a.get("indent") == ("attr", line, N.INDENT)), **kw,
                    expected=fmt(exp_indent, I) if exp_indent else "default", found=fmt(a.get("indent"), I) if a.get("indent") else "default")
             if kind == "Comment":
                 rep.eq(rid, "a comment keeps the whole raw line as its text", fmt(raw, I), fmt(a.get("text"), I) if a.get("text") else None, **kw)
@@ -911,7 +927,7 @@ def rule_token_table(rep: Report, rid="C16.trim", rid_col="C04.col") -> None:
         line, trimmed, raw = line_terms(m)
         for sn, ctx in m.sinks:
             a = sn[1]
-            rep.ob(rid_col, f"match_{kind}: column is the line's indent + 1 (default indent)", a.get("indent") in (None, ("attr", line, "indent")),
+            rep.ob(rid_col, f"match_{kind}: column is the line's indent + 1 (default indent)", a.get("indent") in (None, ("attr", line, N.INDENT)),
                    **_kw(m, sn[2]), expected="default", found=fmt(a.get("indent"), m.I) if a.get("indent") else "default")
         # no test on the raw (untrimmed) line
         for n, ctx in nf.iter_nodes(m.tree):
